@@ -48,11 +48,14 @@ r1 = sh(["/venv/bin/python", "_seed/demo.py"], cwd=wt, env=env, timeout=1800)
 meta["demo_with_change_rc"] = r1.returncode
 meta["demo_with_change_tail"] = (r1.stdout + r1.stderr)[-600:]
 # 1b demo without
-sh(["git", "-C", str(wt), "stash", "push", "--", "src"])
+# (git stash is shared between worktrees: revert/re-apply the patch instead)
+rv = sh(["git", "-C", str(wt), "apply", "-R", str(seed / "patch.diff")])
+assert rv.returncode == 0, rv.stderr
 try:
     r0 = sh(["/venv/bin/python", "_seed/demo.py"], cwd=wt, env=env, timeout=1800)
 finally:
-    sh(["git", "-C", str(wt), "stash", "pop"])
+    ra = sh(["git", "-C", str(wt), "apply", str(seed / "patch.diff")])
+    assert ra.returncode == 0, ra.stderr
 meta["demo_without_change_rc"] = r0.returncode
 print(f"demo: with change rc={r1.returncode}, without rc={r0.returncode}")
 # 1c suite
